@@ -53,20 +53,31 @@ def section_tables():
         w(f"//@ func {n}"); w("//@ encoding bv"); w("//@ requires input1 != nil && input2 != nil && input1.mvtype == mlrval.MT_BOOL && input2.mvtype == mlrval.MT_BOOL && typeIs[bool](input1.intf) && typeIs[bool](input2.intf)".replace("input1.mvtype","mlrval.VKind(input1)").replace("input2.mvtype","mlrval.VKind(input2)").replace("typeIs[bool](input1.intf)","mlrval.IsBoolVal(input1)").replace("typeIs[bool](input2.intf)","mlrval.IsBoolVal(input2)")); w("//@ modifies nothing"); w("//@ class pick2"); w()
     for n in ("min_s_ss","max_s_ss"):
         w(f"//@ func {n}"); w("//@ encoding bv"); w("//@ requires input1 != nil && input2 != nil && (mlrval.VKind(input1) == mlrval.MT_STRING || mlrval.VKind(input1) == mlrval.MT_VOID) && (mlrval.VKind(input2) == mlrval.MT_STRING || mlrval.VKind(input2) == mlrval.MT_VOID)"); w("//@ modifies nothing"); w("//@ class pick2"); w()
+    # the dispatcher returns what the cell it must dispatch to returns: whatever class the table
+    # cell for the operand kinds belongs to, the result has that class's defining property
+    KR = "mlrval.VKind(r)"
+    w('//@ spec func cellOK2(f BinaryFunc, a, b, r *mlrval.Mlrval) bool { return r != nil && imp(inClass(f, "bifs.ret1"), r == a) && imp(inClass(f, "bifs.ret2"), r == b) && imp(inClass(f, "bifs.pick2"), r == a || r == b) && imp(inClass(f, "bifs.absent2"), ' + KR + ' == mlrval.MT_ABSENT) && imp(inClass(f, "bifs.void2"), ' + KR + ' == mlrval.MT_VOID) && imp(inClass(f, "bifs.null2"), ' + KR + ' == mlrval.MT_NULL) && imp(inClass(f, "bifs.error2"), ' + KR + ' == mlrval.MT_ERROR) && imp(inClass(f, "bifs.num2"), ' + KR + ' == mlrval.MT_INT || ' + KR + ' == mlrval.MT_FLOAT || ' + KR + ' == mlrval.MT_ERROR) }')
+    w('//@ spec func cellOK1(f UnaryFunc, a, r *mlrval.Mlrval) bool { return r != nil && imp(inClass(f, "bifs.ret1u"), r == a) && imp(inClass(f, "bifs.absent1"), ' + KR + ' == mlrval.MT_ABSENT) && imp(inClass(f, "bifs.void1"), ' + KR + ' == mlrval.MT_VOID) && imp(inClass(f, "bifs.null1"), ' + KR + ' == mlrval.MT_NULL) && imp(inClass(f, "bifs.error1"), ' + KR + ' == mlrval.MT_ERROR) }')
     # dispatchers: index safety, every cell's kernel precondition holds for the operand kinds that reach it
     w("//@ properties C08 C18")
     disp = ["BIF_plus_binary","BIF_minus_binary","BIF_times","BIF_divide","BIF_int_divide","BIF_dot_plus","BIF_dot_minus","BIF_dot_times","BIF_dot_divide",
             "BIF_modulus","BIF_bitwise_and","BIF_bitwise_or","BIF_bitwise_xor","BIF_left_shift","BIF_signed_right_shift","BIF_unsigned_right_shift","BIF_min_binary","BIF_max_binary"]
+    TBL = {"BIF_plus_binary":"plus","BIF_minus_binary":"minus","BIF_times":"times","BIF_divide":"divide","BIF_int_divide":"int_divide","BIF_dot_plus":"dot_plus","BIF_dot_minus":"dotminus","BIF_dot_times":"dottimes","BIF_dot_divide":"dotdivide",
+           "BIF_modulus":"modulus","BIF_bitwise_and":"bitwise_and","BIF_bitwise_or":"bitwise_or","BIF_bitwise_xor":"bitwise_xor","BIF_left_shift":"left_shift","BIF_signed_right_shift":"signed_right_shift","BIF_unsigned_right_shift":"unsigned_right_shift","BIF_min_binary":"min","BIF_max_binary":"max"}
     for d in disp:
-        w(f"//@ func {d}"); w("//@ encoding bv")
+        w(f"//@ func {d}"); w("//@ encoding bv"); w("//@ callee-classes-only")
+        for i in range(12):
+            w(f"//@ ensures imp(old(mlrval.VKind(input1)) == {i}, " + " && ".join(f"imp(old(mlrval.VKind(input2)) == {j}, cellOK2({TBL[d]}_dispositions[{i}][{j}], input1, input2, result))" for j in range(12)) + ")")
         w("//@ requires mlrval.WF(input1) && mlrval.WF(input2)")
         w("//@ modifies F:mlrval.Mlrval.printrep F:mlrval.Mlrval.printrepValid")
         w("//@ ensures result != nil")
         w("//@ ensures imp(old(mlrval.VKind(input1)) == mlrval.MT_ABSENT && old(mlrval.VKind(input2)) == mlrval.MT_ABSENT, mlrval.VKind(result) == mlrval.MT_ABSENT)")
         w("//@ ensures imp(mlrval.IsIntVal(input1) && mlrval.IsIntVal(input2), mlrval.VKind(result) == mlrval.MT_INT || mlrval.VKind(result) == mlrval.MT_FLOAT || mlrval.VKind(result) == mlrval.MT_ERROR)")
         w()
+    UT = {"BIF_plus_unary":"upos","BIF_minus_unary":"uneg","BIF_bitwise_not":"bitwise_not","BIF_bitcount":"bitcount"}
     for d in ("BIF_plus_unary","BIF_minus_unary","BIF_bitwise_not","BIF_bitcount"):
         w(f"//@ func {d}"); w("//@ encoding bv")
+        w(f"//@ ensures cellOK1({UT[d]}_dispositions[int(old(mlrval.VKind(input1)))], input1, result)")
         w("//@ requires mlrval.WF(input1)")
         w("//@ modifies F:mlrval.Mlrval.printrep F:mlrval.Mlrval.printrepValid")
         w("//@ ensures result != nil")
